@@ -12,7 +12,7 @@ import random
 from .. import canon_session, doccheck, editgen, engine_oracles, engine_run, gen, ooxml, sem
 
 PROFILE = {"vmerge": 0.0, "point_comment": 0.0, "hyperlink": 0.0, "fmt": 0.85, "split_identical": 0.4, "runs": (2, 6)}
-PROFILES = {"default": PROFILE}
+PROFILES = {"default": PROFILE, "localized": PROFILE}
 KINDS = ["replace", "literal", "literal", "markdown", "markdown", "extend", "prefix", "multiline", "heading"]
 LITERALS = ["[___] fee", "snake_case_name", "2*3*4", "a_b", "__init__", "**", "f(x) = y_1", "#1 priority", "#hashtag", "_ lone",
             "x ** y ** z", "50% *net*", "__", "a * b * c", "_x", "x_"]
@@ -22,6 +22,10 @@ MARKDOWN = ["**Bold** plain", "plain _it_", "**B1** and _i2_", "_it_", "**a b** 
 def work(case):
     if "doc" not in case:
         doc, feats, rng = gen.gen_document(case["seed"], case["index"], PROFILES[case["profile"]])
+        if case.get("stream") == "localized":
+            # the built-in heading styles under localised ids (name 'heading 1', id 'Titre1')
+            doc["styles_variant"] = "localized"
+            feats = sorted(set(feats) | {"localized_style_ids"})
         case = dict(case, doc=doc, features=feats)
     else:
         rng = random.Random(case.get("index", 0))
@@ -30,7 +34,8 @@ def work(case):
     edits = case.get("edits")
     if edits is None:
         edits = editgen.gen_para_end_extend(rng, case["doc"], texts) if rng.random() < 0.2 else []
-        edits = edits or editgen.gen_batch(rng, case["doc"], texts, 1, KINDS)
+        edits = edits or editgen.gen_batch(rng, case["doc"], texts, 1, ["heading", "heading", "multiline", "replace"]
+                                           if case.get("stream") == "localized" else KINDS)
         for e in edits:
             e["locatable"] = True
             if e["kind"] == "literal":
@@ -38,12 +43,18 @@ def work(case):
             elif e["kind"] == "markdown":
                 e["new"] = rng.choice(MARKDOWN)
     r = engine_run.run_edits(data, edits)
+    style_fails = []
+    if r.get("out_bytes"):
+        dangling = set(ooxml.undefined_paragraph_styles(r["out_bytes"])) - set(ooxml.undefined_paragraph_styles(data))
+        if dangling and case["doc"].get("styles_variant") != "no_headings":
+            style_fails.append(f"a paragraph created by the session refers to style id(s) {sorted(dangling)} that the document does not "
+                               "define although it defines the built-in heading styles: it is not heading-styled")
     ix = [dict(e, index=texts["raw"].find(e["target"])) for e in edits if e.get("in_raw")]
     rix = engine_run.run_edits(data, ix) if ix else None
     strip = lambda x: {k: v for k, v in x.items() if k != "out_bytes"}
     case = dict(case, edits=edits)
     return {"case": case, "res": strip(r), "indexed": {"edits": ix, "res": strip(rix)} if rix else None,
-            "heur": {"edits": edits, "res": strip(r)},
+            "heur": {"edits": edits, "res": strip(r)}, "style_fails": style_fails,
             "sample": {"edits": [(e["target"], e["new"], e["kind"]) for e in edits]}}
 
 
@@ -56,7 +67,7 @@ def oracle(res):
         return [f"apply_edits raised {r['err']}"]
     if (r["applied"], r["skipped"]) != (1, 0):
         return []
-    return engine_oracles.oracle_formatting(res["case"]["doc"], edits[0], r)
+    return engine_oracles.oracle_formatting(res["case"]["doc"], edits[0], r) + res.get("style_fails", [])
 
 
 def driver_line(res):
@@ -90,7 +101,7 @@ def nontrivial(res):
 def run(tier, seed, driver_ok):
     return doccheck.run_doc_check(
         "C16", tier, seed, driver_ok, n_quick=420, n_thorough=6000,
-        profiles=[("default", PROFILES["default"], 1)],
+        profiles=[("default", PROFILES["default"], 5), ("localized", PROFILES["default"], 1)],
         work=work, oracle=oracle, driver_line=driver_line, compare=compare, nontrivial=nontrivial,
         rule="seeded generated documents with varied run formatting x one edit at a random position (relative to "
              "formatting boundaries) x new text with none / one / several well-formed spans, heading lines, multi-line "
